@@ -1,5 +1,72 @@
-(* C05 — placeholder while the proofs are being written. *)
-From Coq Require Import ZArith List. Import ListNotations. Open Scope Z_scope.
-From EC Require Import Lib.Outcome Model.Msgs Model.Replica.
-Example C05_model_loads : phase_eqb Prepare Prepare = true.
-Proof. reflexivity. Qed.
+(* C05 — View changes are justified, monotone and follow the specification.
+   Statements over the Gallina transcription of the replica handlers (Model/Replica.v);
+   proofs in Proofs/ReplicaMono.v and Proofs/ReplicaJustified.v. *)
+From Coq Require Import ZArith List.
+From EC Require Import Lib.Outcome Model.Msgs Model.Replica Model.ReplicaRun.
+From EC Require Import Proofs.QCProofs Proofs.ReplicaMono Proofs.ReplicaCaches Proofs.ReplicaCrash Proofs.ReplicaJustified.
+Import ListNotations.
+Open Scope Z_scope.
+
+(* monotone: one iteration of the run loop (any input: valid, stale, future, wrong leader, wrong
+   epoch/genesis, badly signed, Byzantine-crafted; or the timer) never decreases the view, the
+   view of the highest commit certificate or the view of the highest timeout certificate.
+   (Overflow checks on: at view u64::MAX the code panics instead of wrapping.) *)
+Theorem C05_step_monotone : forall cfg s i, cchk cfg = true ->
+  st_le s (ReplicaMono.st_of (rstep cfg s i)).
+Proof. exact rstep_monotone. Qed.
+Print Assumptions C05_step_monotone.
+
+Theorem C05_run_monotone : forall cfg inputs, cchk cfg = true -> forall s, st_le s (rsteps cfg s inputs).
+Proof. exact rsteps_monotone. Qed.
+Print Assumptions C05_run_monotone.
+
+(* the certificates a replica holds verify, and stay so along every step *)
+Theorem C05_held_certificates_verify : forall cfg s i, cache_inv cfg s -> certs_ok cfg s ->
+  certs_ok cfg (ReplicaMono.st_of (rstep cfg s i)) /\ Forall (eff_ok cfg) (effs_of (rstep cfg s i)).
+Proof. exact rstep_good. Qed.
+Print Assumptions C05_held_certificates_verify.
+
+(* justified: a completed step that raises the view leaves the replica holding a commit or
+   timeout certificate for (at least) the preceding view *)
+Theorem C05_view_change_justified : forall cfg, cchk cfg = true -> forall s i s' es,
+  cache_inv cfg s -> rstep cfg s i = (s', es, Ok tt) -> r_view s < r_view s' -> justified s'.
+Proof. exact view_change_justified. Qed.
+Print Assumptions C05_view_change_justified.
+
+(* self-justifying: every new-view, timeout and commit message the replica ever emits — along any
+   operation sequence with crashes at any persist point and restarts, starting from the default
+   (or any verified) durable state — verifies in isolation *)
+Theorem C05_emitted_self_justifying : forall cfg d first next ops, durable_ok cfg d ->
+  Forall (msg_ok cfg) (case_log (cfg, d, first, next, ops)).
+Proof. exact emitted_self_justifying. Qed.
+Print Assumptions C05_emitted_self_justifying.
+
+Theorem C05_default_state_ok : forall cfg, durable_ok cfg durable_default.
+Proof. exact durable_default_ok. Qed.
+
+(* the justification carried by new-view messages is the highest certificate held, the commit
+   certificate being preferred on a tie *)
+Theorem C05_justification_is_highest : forall cfg s j, certs_ok cfg s -> get_justification s = Ok j ->
+  match j with
+  | JCommit q => r_high_cqc s = Some q /\
+                 forall t, r_high_tqc s = Some t -> vnum (tqview t) <= vnum (cview (qmsg q))
+  | JTimeout t => r_high_tqc s = Some t /\
+                  forall q, r_high_cqc s = Some q -> vnum (cview (qmsg q)) < vnum (tqview t)
+  end.
+Proof. exact get_justification_highest. Qed.
+Print Assumptions C05_justification_is_highest.
+
+(* Non-vacuity: 1-validator committee; the replica starts in view 0, times out, receives its own
+   timeout vote, forms the timeout certificate and moves to view 1 holding it. *)
+Example C05_nonvacuous :
+  let C := [{| mkey := 0; mweight := 1 |}] in
+  let cfg := {| cg := 0; ce := 0; cC := C; cme := 0; cfirst := 0; cmaxpay := 100;
+                cpsize := (fun _ => 10); cpok := (fun _ _ => true); cchk := true |} in
+  let s0 := rstart cfg durable_default 0 0 in
+  let s1 := ReplicaMono.st_of (rprologue cfg s0) in
+  let t := {| tview := {| vgen := 0; vepoch := 0; vnum := 0 |}; thv := None; thq := None |} in
+  let r := rstep cfg s1 (IMsg {| m_key := 0; m_sig_ok := true; m_msg := MTimeout t |}) in
+  r_view s1 = 0 /\ r_view (ReplicaMono.st_of r) = 1 /\ snd r = Ok tt /\
+  exists tq, r_high_tqc (ReplicaMono.st_of r) = Some tq /\ tqc_verify 0 0 C tq = Ok tt.
+Proof. cbv zeta. split; [reflexivity|]. split; [vm_compute; reflexivity|]. split; [vm_compute; reflexivity|].
+  eexists. split; vm_compute; reflexivity. Qed.
